@@ -512,6 +512,7 @@ pub fn run(tier_name: &str, seed: u64) -> i32 {
                     signature: f.signature.clone(),
                     detail,
                     case: json!({"check": "C18", "case": min}),
+                    origin: None,
                 });
             }
         }
@@ -536,7 +537,7 @@ pub fn run(tier_name: &str, seed: u64) -> i32 {
         }),
         exhaustive: false,
     };
-    report::finish(meta, tally, wall, &|v| replay_all(&v["case"]))
+    report::finish(meta, tally, wall, &|v| replay_all(&v["case"]), &|shard, run| { let _ = (shard, run); None })
 }
 
 #[allow(dead_code)]
